@@ -26,7 +26,15 @@ func c10Scenario(w *World) {
 	w.Cfg.Faults["drift"] = !w.Cfg.FaultFree
 	w.Cfg.UserOpsAtQuiescence = true
 	w.Cfg.Ndist = 30 + s.Intn(200, "ndist")
-	switch s.Intn(2, "family") {
+	switch s.Intn(4, "family") {
+	case 2:
+		w.Cfg.Packages = true
+		pe := s.Bool("pull-errors") // always drawn: the reference run must consume the same choices
+		w.Cfg.Faults["pull-error"] = !w.Cfg.FaultFree && pe
+		w.Scenario = GenPKG(w, 3, "no-error-loops")
+	case 3:
+		w.Cfg.Templates = true
+		w.Scenario = GenOT(w, 4)
 	case 0:
 		w.Scenario = GenOS(w, OSProfile{MaxSets: 3, Delegation: true, Lifecycle: true, LateCreate: true, AllLate: true, CompletePrev: true, OldestFirst: true, Intruder: "granular", DriftOnly: true, Finalizers: true})
 	case 1:
@@ -35,6 +43,12 @@ func c10Scenario(w *World) {
 	for _, a := range w.agents {
 		if wl, ok := a.(*WorkloadAgent); ok {
 			wl.Convergent = true
+			if w.Scenario.Family != "S-OS" {
+				// Archival by a deployment is a one-way decision that legitimately depends on
+				// whether a revision is available at that moment; a transient status regression
+				// would change the outcome without anything having failed to converge.
+				wl.Budget = 0
+			}
 		}
 	}
 }
